@@ -1040,6 +1040,29 @@ pub fn families_owned_lockable() -> Vec<Pair> {
 	v
 }
 
+/// C01 (one thread alone): a checked collection of references cannot be
+/// changed after the duplicate check.  Twin: the same accessor on a collection
+/// that owns its locks.
+pub fn families_mutation_after_check() -> Vec<Pair> {
+	let mut v = Vec::new();
+	for (lockname, ctor) in [("Mutex", "Mutex::new(0)"), ("RwLock", "RwLock::new(0)")] {
+		let pre = format!("    let m = {ctor};\n    let n = {ctor};\n    let mut owned = RetryingLockCollection::new(vec![{ctor}]);\n    let mut byref = RetryingLockCollection::try_new(vec![&m]).unwrap();\n");
+		let cases: Vec<(&str, String, String)> = vec![
+			("child_mut().push", format!("    owned.child_mut().push({ctor});"), "    byref.child_mut().push(&m);".into()),
+			("as_mut().push", format!("    let v: &mut Vec<_> = owned.as_mut();\n    v.push({ctor});"), "    let v: &mut Vec<_> = byref.as_mut();\n    v.push(&m);".into()),
+			("iter_mut", "    for x in owned.iter_mut() { let _ = x; }".into(), "    for x in byref.iter_mut() { *x = &m; }".into()),
+			("&mut iteration", "    for x in &mut owned { let _ = x; }".into(), "    for x in &mut byref { *x = &m; }".into()),
+			("extend", format!("    owned.extend(vec![{ctor}]);"), "    byref.extend(vec![&m]);".into()),
+			("boxed has no child_mut", "    let b = LockCollection::try_new(vec![&m, &n]).unwrap();\n    let _c = b.child();".into(), "    let mut b = LockCollection::try_new(vec![&m, &n]).unwrap();\n    b.child_mut().push(&m);".into()),
+			("ref has no child_mut", "    let d = vec![&m, &n];\n    let r = RefLockCollection::try_new(&d).unwrap();\n    let _c = r.child();".into(), "    let d = vec![&m, &n];\n    let mut r = RefLockCollection::try_new(&d).unwrap();\n    r.child_mut().push(&m);".into()),
+		];
+		for (what, twin, off) in cases {
+			v.push(pair_from("C01", "C01-mutation-after-check", format!("{lockname}: {what}"), &wrap_fn(&format!("{pre}@@\n")), &twin, &off));
+		}
+	}
+	v
+}
+
 /// pick `n` pairs pseudo-randomly (proptest-style byte stream) without repetition
 pub fn sample_indices(src: &mut Src<'_>, total: usize, n: usize) -> Vec<usize> {
 	let mut idx: Vec<usize> = (0..total).collect();
